@@ -420,3 +420,71 @@ Proof.
     cbn [ueval uzeval]. rewrite Ev.
     rewrite wrap_small by (eapply in_type_fits; eauto). auto.
 Qed.
+
+(* ------------------------------------------------------------------------------------------------------------
+   Round 6 (appended): promotion of ONE Python integer to a one-element array, `np.array([v], dtype=t)` or
+   `np.array([v])`, as the private helpers of the SDSS ID packers do it, and the classes of scalar arguments
+   (Python int, Python bool, NumPy integer / boolean scalar, zero-dimensional array) a caller may hand in.
+   NumPy 2 behaviour modelled:
+     - np.array([v], dtype=t): [v] when v fits t, OverflowError otherwise (never a wrapped value);
+     - np.array([v]) for a Python bool is a BOOLEAN array (its integer meaning, 0/1, is kept by astype / << / <);
+       for a Python int it is int64 when v fits, else uint64 when v fits, else an object array holding v exactly.
+   Tied to NumPy by the C06 correspondence families (scalar forms, beyond-64-bit scalars). *)
+
+Inductive pyerr := EValueError | EOverflowError | ETypeError | EOtherError.
+
+Definition pyerr_eqb (a b : pyerr) : bool :=
+  match a, b with
+  | EValueError, EValueError | EOverflowError, EOverflowError | ETypeError, ETypeError | EOtherError, EOtherError => true
+  | _, _ => false
+  end.
+
+(* how the Python integer was spelled: bool is a subclass of int with the values 0 and 1 *)
+Inductive pyint_kind := KInt | KBool.
+
+Inductive promo :=
+| PrArr (t : ity) (l : list Z)      (* integer array of type t *)
+| PrBoolArr (l : list Z)            (* boolean array, elements given by their integer meaning *)
+| PrObjArr (l : list Z)             (* object array of exact Python integers *)
+| PrErr (e : pyerr).
+
+Definition np_array1_dtype (t : ity) (v : Z) : promo :=
+  if fits t v then PrArr t [v] else PrErr EOverflowError.
+
+Definition np_array1_inferred (k : pyint_kind) (v : Z) : promo :=
+  match k with
+  | KBool => PrBoolArr [v]
+  | KInt => if fits I64 v then PrArr I64 [v] else if fits U64 v then PrArr U64 [v] else PrObjArr [v]
+  end.
+
+(* a promotion helper as read from the source: explicit dtype or inferred; `except X: raise Y` handlers *)
+Record promoter := { pr_dtype : option ity; pr_handlers : list (pyerr * pyerr) }.
+
+Definition run_promoter (p : promoter) (k : pyint_kind) (v : Z) : promo :=
+  match (match pr_dtype p with Some t => np_array1_dtype t v | None => np_array1_inferred k v end) with
+  | PrErr e => match find (fun h => pyerr_eqb (fst h) e) (pr_handlers p) with
+              | Some h => PrErr (snd h)
+              | None => PrErr e
+              end
+  | r => r
+  end.
+
+(* the integers an array holds, whatever its storage class *)
+Definition promo_values (r : promo) : option (list Z) :=
+  match r with PrArr _ l | PrBoolArr l | PrObjArr l => Some l | PrErr _ => None end.
+
+(* classes of scalar arguments that a normalising helper turns into Python integers *)
+Inductive scalar_class := NpIntegerScalar | NpBoolScalar | ZeroDimArray.
+
+Definition scalar_class_eqb (a b : scalar_class) : bool :=
+  match a, b with
+  | NpIntegerScalar, NpIntegerScalar | NpBoolScalar, NpBoolScalar | ZeroDimArray, ZeroDimArray => true
+  | _, _ => false
+  end.
+
+Lemma np_array1_dtype_exact t v :
+  np_array1_dtype t v = if fits t v then PrArr t [v] else PrErr EOverflowError.
+Proof. reflexivity. Qed.
+
+Lemma np_array1_inferred_values k v : promo_values (np_array1_inferred k v) = Some [v].
+Proof. destruct k; unfold np_array1_inferred; [|reflexivity]. destruct (fits I64 v); [reflexivity|]. destruct (fits U64 v); reflexivity. Qed.
